@@ -555,6 +555,20 @@ def run_dither_case(ctx, case, lines, pending):
     if not ip and (x.tobytes() != x0.tobytes() or shares):
         ctx.violation(case, "input untouched, result not aliased", dict(input_after=x.ravel().tolist()[:20], shares=shares),
                       "in_place=False leaves the input untouched", tags=dict(tags, clause="not_in_place_pure"))
+    # one Dither object used repeatedly: results handed out earlier are the caller's and must survive later
+    # calls; feeding a result back with in_place=False must not modify it
+    if not ip and x.size:
+        obj = P.Dither(coeff)
+        np.random.seed(seed)
+        r1 = call_apply(obj, x0.copy(), axis, False)
+        keep = r1.tobytes()
+        r2 = call_apply(obj, x0.copy(), axis, False)
+        r3 = call_apply(obj, r1, axis, False)
+        if r1.tobytes() != keep or np.shares_memory(r1, r2) or np.shares_memory(r1, r3):
+            ctx.violation(case, "earlier result untouched and not aliased by later calls on the same object",
+                          dict(changed=r1.tobytes() != keep, shares=[bool(np.shares_memory(r1, r2)), bool(np.shares_memory(r1, r3))]),
+                          "repeated apply(in_place=False) on one Dither object leaves its inputs (incl. earlier results) untouched",
+                          tags=dict(tags, clause="not_in_place_pure_reuse"))
     # reproducible + in_place gives the same values
     y2 = seeded_dither(P, coeff, x0.copy(), axis, ip, seed)
     if y2.tobytes() != y.tobytes():
